@@ -15,7 +15,7 @@ import ast
 from ..atsq import ename, mode_of, state_of, step_of
 from ..core import Ctx, Evidence, Finding, witness_of
 from ..model import AnalysisError
-from .retry import PROCS, check_proc, single_comparison
+from .retry import timer_oids, PROCS, check_proc, single_comparison
 
 EXEMPT = {
     ("source", "WAITING_FOR_FINISHED", "ACKNOWLEDGED"): "documented: inactivity handling while awaiting the Finished PDU after the EOF was acknowledged is not implemented",
@@ -170,6 +170,33 @@ def check(ctx: Ctx, ev: Evidence) -> list[Finding]:
             out.append(Finding("C04-R4", f"{which} handler | limit fault during the cancel exchange does not abandon",
                                "a retry-limit fault declared while the transaction is already being cancelled re-cancels instead of abandoning (the sibling handler abandons): the cancel exchange can repeat forever",
                                "", witness_of(a, bad_edge) if bad_edge is not None else None))
+    # R5: the awaited acknowledgement wins over a timer that expired in the same call; the limit decision consults the configured limit
+    ev.rule("C04-R5", "an edge that accepts the awaited acknowledgement in its wait step neither re-sends the acknowledged PDU nor declares the limit fault (the acknowledgement wins over a timer that expired meanwhile)", 2)
+    for which, a, lab, pdu, wait in (("dest", dst, ("state_machine", "ACK_FIN"), "FINISHED", "WAITING_FOR_FINISHED_ACK"),
+                                      ("source", src, ("state_machine", "ACK_EOF"), "EOF", "WAITING_FOR_EOF_ACK")):
+        n_acc = 0
+        bad = None
+        for e in a.edges:
+            if e.label != lab or e.exc is not None or state_of(a, e.pre) != "BUSY" or a.h.wget(e.pre, "_pdus_to_be_sent"):
+                continue
+            pre_s, post_s = step_of(a, e.pre), step_of(a, e.post)
+            if pre_s != wait:
+                continue  # the PDU being acknowledged must already have been sent
+            accepted = pre_s != post_s and (state_of(a, e.post) == "IDLE" or post_s in ("WAITING_FOR_FINISHED", "NOTICE_OF_COMPLETION"))
+            if not accepted:
+                continue
+            n_acc += 1
+            resent = [x for x in e.ev if x.kind == "pdu" and x.name == pdu]
+            faults = [x for x in e.ev if x.kind == "env" and x.name.startswith("fault.") and "ACK_LIMIT" in ename(x.args[1])]
+            if resent or faults:
+                bad = bad or (e, "re-sends the " + pdu + " PDU" if resent else "declares the positive-ACK limit fault")
+        k = f"{which} handler | {n_acc} edges accept {lab[1]}: none re-sends {pdu} or declares the limit fault: {bad is None}"
+        ev.inst("C04-R5", k, "ok" if bad is None and n_acc else "violation")
+        if n_acc == 0:
+            raise AnalysisError(f"no edge of the {which} ATS accepts {lab[1]} (rule blind)")
+        if bad is not None:
+            out.append(Finding("C04-R5", f"{which} handler | accepting {lab[1]} also {bad[1]}",
+                               f"a call that receives the awaited {lab[1]} after the timer interval services the timer first: it {bad[1]} although the acknowledgement is in hand", "", witness_of(a, bad[0])))
     ev.extra["explanation"] = "timer / counter / fault / PDU events on every ATS edge of both handlers for the three retry procedures; backward reachability of idle over packet-less edges from every reachable abstract state"
     ev.assume("Countdown expires after its interval (spacepackets); a timer created or re-armed in a call does not expire within that call")
     return out
